@@ -437,6 +437,34 @@ def main():
                 tree = ast.parse(q, mode="eval").body
                 items.append((b, "wire", "metadata-lists-as-tuples", q, lists_to_tuples(tree)))
                 items.append((b, "qastle", "round-trip", q, None))
+        if b == "atlas":
+            # the ORDER in which several MetaData calls are attached (which follows from where along the chain each one sits):
+            # job-script blocks that their declared dependencies order completely give the same job options in every order
+            import itertools as _it
+            JB = lambda n, lines, deps: {"metadata_type": "add_job_script", "name": n, "script": lines, "depends_on": deps}      # noqa: E731
+            ordered = [JB("registry", ["tools = []"], []), JB("calibration", ["tools.append('calib')"], ["registry"]),
+                       JB("systematics", ["job_tools = ','.join(tools)"], ["registry"]), JB("systematics", ["job_tools = ','.join(tools)"], ["calibration"])]
+            independent = [JB("alpha", ["alpha = 1"], []), JB("beta", ["beta = 2"], [])]
+
+            def with_mds(mds, split=False):
+                src = "EventDataset('ds')"
+                inner = mds[:2] if split else mds
+                for m in inner:
+                    src = f"MetaData({src}, {m!r})"
+                qq = f"Select({src}, lambda e: e.{v['prim']}('A').Select(lambda j: j.pt()))"
+                if split:
+                    qq = f"Where({qq.replace('Select(', 'Select(', 1)}, lambda js: js.Count() > 0)"
+                    for m in mds[2:]:
+                        qq = f"MetaData({qq}, {m!r})"
+                    qq = f"Select({qq}, lambda js: js.Count())"
+                return qq
+            base_q = with_mds(ordered)
+            for perm in list(_it.permutations(range(4)))[1:: (3 if a.tier == "quick" else 1)]:
+                items.append((b, "metadata", "order:" + "".join(map(str, perm)), base_q, ast.parse(with_mds([ordered[i] for i in perm]), mode="eval").body))
+            base_s = with_mds(ordered, split=True)
+            for perm in ((2, 3, 0, 1), (3, 1, 0, 2), (1, 0, 3, 2)):
+                items.append((b, "metadata", "order-split:" + "".join(map(str, perm)), base_s, ast.parse(with_mds([ordered[i] for i in perm], split=True), mode="eval").body))
+            items.append((b, "metadata", "order-independent:10", with_mds(independent), ast.parse(with_mds(independent[::-1]), mode="eval").body))
         # wire format of negative constants: a captured python value -1 reaches the executor as ONE Constant(-1) node in the
         # python AST, and as "-1" = USub(Constant(1)) after the trip through qastle text
         from ..tv.translate import _FoldNegative
